@@ -181,3 +181,36 @@ Proof.
               lo y + (tsum (repeat 1 (length bs)) (his bs) - (1 - hi (nth k bs unknown)))) by (field).
   rewrite E. qcases; lra.
 Qed.
+
+(* ---------- downward through a quantifier over a quantifier: the push into the operand's private neurons ---------- *)
+Definition qneu_sound (s : qstate) (v : gnd -> Q) : Prop := forall g a b, qfind (qneu s) g = Some (a, b) -> inb b (v g).
+
+(* every bound a group of the inner quantifier holds after the push still contains the group's value, provided the bound
+   it held before and the proposal did; nothing but bounds of existing groups changes, the amount is non-negative *)
+Theorem q_push_inner_sound inner props v : (forall g, 0 <= v g <= 1) -> qneu_sound inner v ->
+  (forall g p, In (g, p) props -> inb p (v g)) ->
+  qneu_sound (fst (q_push_inner inner props)) v /\ qtab (fst (q_push_inner inner props)) = qtab inner /\ 0 <= snd (q_push_inner inner props).
+Proof.
+  intros Hv. unfold q_push_inner.
+  assert (G : forall props acc, qneu_sound (fst acc) v -> 0 <= snd acc -> (forall g p, In (g, p) props -> inb p (v g)) ->
+     let r := fold_left (fun (acc : qstate * Q) gp =>
+               match qfind (qneu (fst acc)) (fst gp) with
+               | Some (a, b) => let b' := agg_bnd WBoth b (snd gp) in
+                   (QS (qset (qneu (fst acc)) (fst gp) (a, bred b')) (qtab (fst acc)), Qred (snd acc + moved b b'))
+               | None => acc end) props acc in
+     qneu_sound (fst r) v /\ qtab (fst r) = qtab (fst acc) /\ 0 <= snd r).
+  { induction props0 as [|[g p] props0 IH]; intros acc Hs Ha Hp; cbn [fold_left]; cbn zeta; [split; [exact Hs | split; [reflexivity | exact Ha]]|].
+    cbn [fst snd]. destruct (qfind (qneu (fst acc)) g) as [[a b]|] eqn:E.
+    - set (acc1 := (QS (qset (qneu (fst acc)) g (a, bred (agg_bnd WBoth b p))) (qtab (fst acc)), Qred (snd acc + moved b (agg_bnd WBoth b p)))).
+      destruct (IH acc1) as (S1 & T1 & A1).
+      + intros h a' b' Hf. unfold acc1 in Hf. cbn [fst qneu] in Hf.
+        destruct (list_eq_dec Nat.eq_dec h g) as [->|Hne].
+        * rewrite qfind_qset_same in Hf. inversion Hf; subst a' b'. unfold inb. rewrite lo_bred, hi_bred.
+          apply agg_sound; [split; apply Hv | apply (Hs g a b E) | apply (Hp g p); left; reflexivity].
+        * rewrite qfind_qset_other in Hf by (intro X; apply Hne; symmetry; exact X). apply (Hs h a' b' Hf).
+      + unfold acc1. cbn [snd]. rewrite Qred_correct. pose proof (moved_nonneg b (agg_bnd WBoth b p)). lra.
+      + intros h q0 Hin. apply Hp. right. exact Hin.
+      + split; [exact S1 | split; [etransitivity; [exact T1 | reflexivity] | exact A1]].
+    - apply IH; [exact Hs | exact Ha | intros h q0 Hin; apply Hp; right; exact Hin]. }
+  intros Hs Hp. apply (G props (inner, 0)); cbn [fst snd]; [exact Hs | lra | exact Hp].
+Qed.
